@@ -7,4 +7,4 @@ Extraction "emitstate.ml" EmitStateModel.step EmitStateModel.init_state EmitStat
   EmitStateModel.failed EmitStateModel.prune EmitStateModel.run EmitStateModel.persistent EmitStateModel.node_active_mark
   EncPathModel.rel_cmd EncPathModel.path_constants EncPathModel.rel_result
   C14MemPathModel.mem_cmd C14MemPathModel.mem_path_constants C14MemPathModel.x86_add_mem C14MemPathModel.vsib_cmd C14MemPathModel.pushpop_cmd
-  C14MemPathModel.a64_ldst_cmd C14MemPathModel.a64_path_constants C14MemPathModel.shift_cmd C14MemPathModel.vsib2_cmd.
+  C14MemPathModel.a64_ldst_cmd C14MemPathModel.a64_path_constants C14MemPathModel.shift_cmd C14MemPathModel.vsib2_cmd C14MemPathModel.a64_ldp_cmd C14MemPathModel.mov_cmd C14MemPathModel.a64_simd_ldst_cmd C14MemPathModel.a64_simd_constants C14MemPathModel.vrrr_cmd.
